@@ -12,8 +12,6 @@ Lemma covers_ext n S S' : (forall x, memz x S = memz x S') -> covers n S = cover
 Proof. intros H. unfold covers. apply forallb_ext'. intros x. apply H. Qed.
 Lemma missing_ext n S S' : (forall x, memz x S = memz x S') -> missing_of n S = missing_of n S'.
 Proof. intros H. unfold missing_of. apply filter_ext. intros x. now rewrite H. Qed.
-Lemma memz_app x S T : memz x (S ++ T) = memz x S || memz x T.
-Proof. unfold memz. apply existsb_app. Qed.
 Lemma memz_rev x S : memz x (rev S) = memz x S.
 Proof.
   induction S as [|y S IH]; [reflexivity|]. cbn [rev]. rewrite memz_app, IH, memz_cons.
@@ -24,7 +22,7 @@ Proof. rewrite !covers_spec. intros H HT k Hk. apply HT. now apply H. Qed.
 
 (* fragment numbers of a sample among events, in arrival order *)
 Definition kfrags (es : list kev) : list Z :=
-  flat_map (fun e => match e with KFrag k => [k] | _ => [] end) es.
+  flat_map (fun e => match e with KFrag k c => frag_nums k c | _ => [] end) es.
 Definition no_gc (es : list kev) : Prop := forall e, In e es -> match e with KGc _ => False | _ => True end.
 
 Lemma kfrags_app es es' : kfrags (es ++ es') = kfrags es ++ kfrags es'.
@@ -44,10 +42,11 @@ Proof.
     rewrite (covers_mono n (kfrags es) (kfrags es ++ kfrags [e]) C) in Hc; [discriminate|].
     intros y Hy. rewrite memz_app, Hy. reflexivity. }
   specialize (IH t Hg' Hc').
-  destruct e as [k|g|].
-  - cbn [kfrags flat_map app] in *. cbn [kstep].
-    assert (E : forall y, memz y (k :: fst (krun n t k0 es)) = memz y (kfrags es ++ [k])).
-    { intros y. rewrite memz_cons, memz_app, IH. cbn [memz existsb]. rewrite orb_false_r. apply orb_comm. }
+  destruct e as [k c|g|].
+  - cbn [kfrags flat_map] in *. rewrite app_nil_r in *. cbn [kstep].
+    assert (E : forall y, memz y (frag_nums k c ++ fst (krun n t k0 es))
+                          = memz y (kfrags es ++ frag_nums k c)).
+    { intros y. rewrite !memz_app, IH. apply orb_comm. }
     rewrite (covers_ext n _ _ E), Hc. cbn [fst]. apply E.
   - exfalso. apply (Hg (KGc g)). apply in_or_app. right. now left.
   - cbn [kstep kfrags flat_map app]. rewrite app_nil_r. apply IH.
@@ -61,24 +60,24 @@ Section KeyCorollaries.
 
   (* C05_first_completion: nothing is handed over while fragments are missing; exactly
      header ++ value is handed over at the arrival that completes the set *)
-  Theorem first_completion pre o post k :
+  Theorem first_completion pre o post k c :
     Forall op_ok (pre ++ o :: post) ->
     Forall (op_honest w sn fs sp) (pre ++ o :: post) ->
-    kev_of_op w sn o = KFrag k ->
+    kev_of_op w sn o = KFrag k c ->
     no_gc (map (kev_of_op w sn) pre) ->
     covers n (kfrags (map (kev_of_op w sn) pre)) = false ->
     nth (length pre) (run_ops new_datafrag 0 [] (pre ++ o :: post)) APanic
-    = if covers n (k :: kfrags (map (kev_of_op w sn) pre))
+    = if covers n (frag_nums k c ++ kfrags (map (kev_of_op w sn) pre))
       then AOut (Some (hv sp)) []
-      else AOut None (missing_of n (k :: kfrags (map (kev_of_op w sn) pre))).
+      else AOut None (missing_of n (frag_nums k c ++ kfrags (map (kev_of_op w sn) pre))).
   Proof.
     intros Fok Fh Hk Hg Hc.
-    rewrite (run_key w sn fs sp Hfs HD pre 0 [] k0 o post k rinv_nil (R_nil w sn fs sp) Fok Fh Hk).
+    rewrite (run_key w sn fs sp Hfs HD pre 0 [] k0 o post k c rinv_nil (R_nil w sn fs sp) Fok Fh Hk).
     unfold expected. fold n.
     pose proof (krun_no_reset n (map (kev_of_op w sn) pre) 0 Hg Hc) as E.
-    assert (E' : forall x, memz x (k :: fst (krun n 0 k0 (map (kev_of_op w sn) pre)))
-                         = memz x (k :: kfrags (map (kev_of_op w sn) pre))).
-    { intros x. rewrite !memz_cons, E. reflexivity. }
+    assert (E' : forall x, memz x (frag_nums k c ++ fst (krun n 0 k0 (map (kev_of_op w sn) pre)))
+                         = memz x (frag_nums k c ++ kfrags (map (kev_of_op w sn) pre))).
+    { intros x. rewrite !memz_app, E. reflexivity. }
     rewrite (covers_ext n _ _ E'), (missing_ext n _ _ E'). reflexivity.
   Qed.
 End KeyCorollaries.
@@ -190,7 +189,7 @@ Section Once.
     assert (Hb : forall i b, nth_error ds i = Some (Some (w, sn, b)) -> b = hv sp).
     { intros i b H. apply deliveries_sound in H as (df & m & Ho & Hsn & Hout).
       destruct (nth_error_split ops i _ Ho) as (pre & post & -> & Hl).
-      pose proof (run_key w sn fs sp Hfs HD pre 0 [] k0 (OFrag w df) post (df_start df)
+      pose proof (run_key w sn fs sp Hfs HD pre 0 [] k0 (OFrag w df) post (df_start df) (df_count df)
                     rinv_nil (R_nil w sn fs sp) Fok Fh) as Hk.
       cbn [kev_of_op] in Hk. rewrite Z.eqb_refl, Hsn, Z.eqb_refl in Hk. specialize (Hk eq_refl).
       apply (nth_error_nth _ _ APanic) in Hout. rewrite <- Hl in Hout. subst outs.
@@ -432,15 +431,15 @@ Qed.
 (* statements in the form used by Props.v *)
 Lemma reassembly : forall w sn fs sp,
   1 <= fs <= 65535 -> fs < payload_size sp < 2 ^ 32 ->
-  forall pre o post k,
+  forall pre o post k c,
   Forall op_ok (pre ++ o :: post) ->
   Forall (op_honest w sn fs sp) (pre ++ o :: post) ->
-  kev_of_op w sn o = KFrag k ->
+  kev_of_op w sn o = KFrag k c ->
   nth (length pre) (run_ops new_datafrag 0 [] (pre ++ o :: post)) APanic
-  = expected fs sp (krun (total_frags (payload_size sp) fs) 0 k0 (map (kev_of_op w sn) pre)) k.
+  = expected fs sp (krun (total_frags (payload_size sp) fs) 0 k0 (map (kev_of_op w sn) pre)) k c.
 Proof.
-  intros w sn fs sp Hfs HD pre o post k Fok Fh Hk.
-  exact (run_key w sn fs sp Hfs HD pre 0 [] k0 o post k rinv_nil (R_nil w sn fs sp) Fok Fh Hk).
+  intros w sn fs sp Hfs HD pre o post k c Fok Fh Hk.
+  exact (run_key w sn fs sp Hfs HD pre 0 [] k0 o post k c rinv_nil (R_nil w sn fs sp) Fok Fh Hk).
 Qed.
 
 Lemma frame_both : forall nd, nd = new_datafrag \/ nd = new_datafrag_old ->
@@ -512,6 +511,32 @@ Proof.
       change (fs_of ex_ws 0) with 4. change (payload_size ex_sp) with 11. split; [reflexivity|lia].
     + pose proof ex_wf as W. cbn [wf_case] in W. rewrite forallb_forall in W. now apply W.
 Qed.
+(* several fragments per DATAFRAG: overlapping runs, a run completing the set, a whole sample in
+   one DATAFRAG; the payload of AFrags 0 1 2 2 is bytes 4..11 of header ++ value (last fragment short) *)
+Definition ex_arr_multi : list arrival :=
+  [AFrags 0 1 2 2; AFrag 1 3 1; AFrags 0 1 1 2; AFrags 1 3 2 2; AFrags 0 1 1 3].
+Example ex_multi_wf : wf_case (CHonest ex_ws ex_arr_multi) = true /\ wf_case (CReader ex_ws ex_arr_multi) = true.
+Proof. vm_compute. split; reflexivity. Qed.
+Example ex_multi_payload :
+  to_op ex_ws (AFrags 0 1 2 2)
+  = OFrag 0 {| df_sn := 1; df_start := 2; df_count := 2; df_data_size := 11; df_frag_size := 4;
+               df_payload := [10; 11; 12; 13; 14; 15; 16] |}.
+Proof. vm_compute. reflexivity. Qed.
+Example ex_multi_outputs :
+  run (CHonest ex_ws ex_arr_multi) =
+  OAsm [AOut None [1]; AOut None [2; 3]; AOut (Some (hv ex_sp)) []; AOut (Some (hv ex_sp)) [];
+        AOut (Some (hv ex_sp)) []]
+  /\ run (CReader ex_ws ex_arr_multi) =
+     ODeliv [None; None; Some (0, 1, hv ex_sp); Some (1, 3, hv ex_sp); None].
+Proof. vm_compute. split; reflexivity. Qed.
+(* an assembler that fills every fragment slot of a multi-fragment DATAFRAG with the bytes of its
+   first fragment (right length, right moment, wrong content) is rejected by the oracle *)
+Example ex_multi_corrupt_rejected :
+  ok (CHonest ex_ws [AFrags 0 1 1 3])
+     (OAsm [AOut (Some [0; 1; 0; 0; 0; 1; 0; 0; 0; 1; 0]) []]) = false
+  /\ ok (CReader ex_ws [AFrags 0 1 1 3])
+        (ODeliv [Some (0, 1, [0; 1; 0; 0; 0; 1; 0; 0; 0; 1; 0])]) = false.
+Proof. vm_compute. split; reflexivity. Qed.
 Example ex_split : exists frags, run (CSplit 4 7 ex_sp) = OSplit None frags /\ length frags = 3%nat.
 Proof. eexists. split; [vm_compute; reflexivity|reflexivity]. Qed.
 Example ex_hostile_ignored :
